@@ -136,6 +136,30 @@ type hTimer struct {
 	dm     *dummy.Timer
 	in     *inst
 	nSched int // dummy configuration: number of Schedule calls so far (= id of the shadow's timer for the same call)
+	dmRecs []*dmRec
+}
+
+// dmRec (dummy configurations, white box, canonical state only): one Schedule call on dummy.Timer.
+type dmRec struct {
+	owner int       // Interest whose Express made the call
+	at    time.Time // expiry instant
+	fid   uintptr   // identity of the closure in the slot table (0: unknown)
+	idx0  int       // slot it was put in (what the cancel closure remembers)
+}
+
+// dmLive: the closure identities in the live slots of dummy.Timer's table -> slot index.
+func dmLive(dm *dummy.Timer) (map[uintptr]int, bool) {
+	slots, ok := dm.VerifSlots()
+	if !ok {
+		return nil, false
+	}
+	m := map[uintptr]int{}
+	for i, sl := range slots {
+		if sl.Live {
+			m[sl.ID] = i
+		}
+	}
+	return m, true
 }
 
 func (t *hTimer) Now() time.Time {
@@ -153,6 +177,23 @@ func (t *hTimer) Schedule(d time.Duration, f func()) func() error {
 		in := t.in
 		seq := t.nSched
 		t.nSched++
+		rec := &dmRec{owner: t.curOwner, at: t.dm.Now().Add(d), idx0: -1}
+		t.dmRecs = append(t.dmRecs, rec)
+		before, okb := dmLive(t.dm)
+		defer func() {
+			if after, ok := dmLive(t.dm); ok && okb {
+				n := 0
+				for id, i := range after {
+					if _, was := before[id]; !was {
+						rec.fid, rec.idx0 = id, i
+						n++
+					}
+				}
+				if n != 1 {
+					rec.fid, rec.idx0 = 0, -1
+				}
+			}
+		}()
 		return t.dm.Schedule(d, func() {
 			in.dmRan = append(in.dmRan, seq)
 			f()
@@ -438,6 +479,7 @@ type cfgT struct {
 	audit     bool     // canon audit: no de-duplication (the history is part of the canonical state)
 	shared    bool     // application style: one InterestConfig struct re-used (and mutated) for every Express; Recfg events
 	faults    bool     // fault events: Down (Engine.Stop: the face refuses to send, deviation) / Up (Engine.Start)
+	advBig    int      // > 0: a second, larger clock step Adv(<advBig>) in ms that passes several deadlines at once
 	inSend    bool     // face model: every Data/Nack arrival may also be delivered INSIDE face.Send of an Express (re-entrantly, before Express returns)
 }
 
@@ -561,6 +603,9 @@ func (s *sys) Ops(i any) []explore.Op {
 	}
 	if c.adv10 && (sched || len(in.calls) > 0 || (c.dummy && len(in.ints) > 0)) {
 		add("Adv(10)")
+	}
+	if c.advBig > 0 && (sched || len(in.calls) > 0 || (c.dummy && len(in.ints) > 0)) {
+		add("Adv(%d)", c.advBig)
 	}
 	if c.advNext && later {
 		add("AdvNext")
@@ -864,11 +909,15 @@ func (s *sys) step(in *inst, op string) []report.Violation {
 		}
 		in.down = false
 	case "Adv":
-		in.tm.now = in.tm.now.Add(10 * ms)
+		var step int
+		if n, _ := fmt.Sscanf(a[0], "%d", &step); n != 1 || step <= 0 {
+			report.Fatal("harness: bad clock step in %s", op)
+		}
+		in.tm.now = in.tm.now.Add(time.Duration(step) * ms)
 		if in.tm.dm != nil {
 			// real MoveForward: runs every event strictly before the new now
 			in.curKind = "timeout"
-			in.tm.dm.MoveForward(10 * ms)
+			in.tm.dm.MoveForward(time.Duration(step) * ms)
 		}
 	case "AdvNext":
 		var nx time.Time
@@ -1238,7 +1287,7 @@ func (s *sys) Apply(i any, op explore.Op) []report.Violation {
 	v := append([]report.Violation{}, s.step(in, op.Name)...)
 	if in.ref != nil {
 		s.step(in.ref, op.Name)
-		if op.Name == "Adv(10)" {
+		if strings.HasPrefix(op.Name, "Adv(") {
 			refRunDue(in.ref, in.dmRan)
 		}
 		v = append(v, diffRef(in, op.Name)...)
@@ -1551,6 +1600,55 @@ func (s *sys) Canon(i any) string {
 	if s.c.audit {
 		b.WriteString("#H" + strings.Join(in.hist, ";"))
 	}
+	if in.tm.dm != nil {
+		// dummy configurations: the slot table of dummy.Timer in slot order (dead slots are re-used by
+		// Schedule, so their positions count), every live slot with its expiry instant relative to now,
+		// the Interest whose timeout it is (name, still pending?) and the slot index its cancel closure
+		// remembers; pending Interests whose closure is in no live slot any more; then the shadow run.
+		// Without the white-box dump: the history (no de-duplication).
+		slots, ok := in.tm.dm.VerifSlots()
+		if !ok {
+			b.WriteString("#H" + strings.Join(in.hist, ";"))
+		} else {
+			byID := map[uintptr]*dmRec{}
+			for _, r := range in.tm.dmRecs {
+				if r.fid != 0 {
+					byID[r.fid] = r
+				} else {
+					ok = false
+				}
+			}
+			if !ok {
+				b.WriteString("#H" + strings.Join(in.hist, ";"))
+			}
+			b.WriteString("#DM")
+			liveID := map[uintptr]bool{}
+			for _, sl := range slots {
+				if !sl.Live {
+					b.WriteString("D|")
+					continue
+				}
+				liveID[sl.ID] = true
+				o := "?"
+				if r := byID[sl.ID]; r != nil && r.owner >= 0 && r.owner < len(in.ints) {
+					x := in.ints[r.owner]
+					o = fmt.Sprintf("%s,%v,%d", x.name, len(x.res) == 0, r.idx0)
+				}
+				fmt.Fprintf(&b, "L%d,%s|", int64(sl.T.Sub(in.tm.dm.Now())/ms), o)
+			}
+			var lost []string
+			for _, r := range in.tm.dmRecs {
+				if r.owner >= 0 && r.owner < len(in.ints) && len(in.ints[r.owner].res) == 0 && !liveID[r.fid] {
+					lost = append(lost, fmt.Sprintf("%s,%d,%d", in.ints[r.owner].name, r.idx0, int64(r.at.Sub(in.tm.dm.Now())/ms)))
+				}
+			}
+			sort.Strings(lost)
+			b.WriteString("#X" + strings.Join(lost, "|"))
+		}
+		if in.ref != nil {
+			b.WriteString("#REF" + s.Canon(in.ref))
+		}
+	}
 	return b.String()
 }
 
@@ -1658,6 +1756,13 @@ var configs = map[string]cfgT{
 	// keeps state no canonical form here covers (slot table), hence no de-duplication.
 	"dummy": {dummy: true, names: n2, cbps: []bool{false}, lives: []int{10, 20}, digs: []string{"none"}, maxInt: 3, retries: []string{"late", "early"},
 		dataNames: n2, nackNames: []string{"/a"}, adv10: true},
+	// dummy.Timer under the engine with DIFFERENT names whose deadlines fall on the same virtual instant
+	// (sibling and nested names, equal lifetimes expressed between the same two clock steps), events that
+	// fired in earlier slots, cancels (Data/Nack) after them, and a second clock step of 30 ms that passes
+	// several deadlines in one MoveForward. Searched with de-duplication on a canonical state that includes
+	// dummy.Timer's slot table (see Canon); the "dummy" and "dtimer" universes are the audits without.
+	"dummys": {dummy: true, names: ns, cbps: []bool{false}, lives: []int{10, 20}, digs: []string{"none"}, maxInt: 4,
+		dataNames: ns, nackNames: []string{"/a", "/a/b"}, adv10: true, advBig: 30},
 	// both sides at once (thorough tier)
 	"mixed": {names: n2, cbps: []bool{false, true}, lives: []int{10}, digs: []string{"none"}, maxInt: 2,
 		dataNames: n2, lpData: []string{"tok"}, nackNames: n2, advNext: true, adv10: true, split: true,
@@ -1671,6 +1776,11 @@ func build(name string) explore.System {
 	var mi, min int
 	if n, _ := fmt.Sscanf(name, "%s i=%d in=%d", &u, &mi, &min); n != 3 {
 		report.Fatal("bad config name %q", name)
+	}
+	if t, ok := tconfigs[u]; ok {
+		// component-level search of dummy.Timer alone (dtimer.go)
+		t.name, t.maxEv = name, mi
+		return &t
 	}
 	c, ok := configs[strings.TrimPrefix(u, "audit-")]
 	if !ok {
@@ -1717,9 +1827,23 @@ func main() {
 				c = append(c, explore.Config{Name: x.n, MaxDepth: x.d, MaxDev: md})
 			}
 			// history searches without de-duplication (both tiers), last: they take what budget is left
-			hd, hh, dd := 6, 8, 5
+			hd, hh, dd, td := 6, 8, 5, 6
 			if th {
-				hd, hh, dd = 10, 10, 7
+				hd, hh, dd, td = 10, 10, 7, 8
+			}
+			sd := 7
+			if th {
+				sd = 10
+			}
+			// the component-level search of dummy.Timer and the same-instant universe on it first: both are
+			// cheap up to the depth at which their shortest counterexamples live
+			c = append([]explore.Config{{Name: "dtimer i=4 in=0", MaxDepth: td, MaxDev: -1, NoDedup: true}}, c...)
+			// (dummys after the cheap universes, whose unused budget share it inherits, before the big ones)
+			for i := range c {
+				if strings.HasPrefix(c[i].Name, "race ") {
+					c = append(c[:i], append([]explore.Config{{Name: "dummys i=4 in=0", MaxDepth: sd, MaxDev: -1}}, c[i:]...)...)
+					break
+				}
 			}
 			c = append(c, explore.Config{Name: "dummy i=3 in=0", MaxDepth: dd, MaxDev: -1, NoDedup: true},
 				explore.Config{Name: "tiny i=4 in=0", MaxDepth: hd, MaxDev: -1, NoDedup: true},
